@@ -294,13 +294,30 @@ func factHasAccess(hasAccess *types.Func, ctxParam ssa.Value) guardFact {
 			return nil, false
 		}
 		c, ok := k.X.(*ssa.Call)
-		if !ok || an.StaticCallee(c) != hasAccess || len(c.Call.Args) != 2 {
+		if !ok {
 			return nil, false
 		}
-		if ctxParam != nil && !derivesFromRequestCtx(c.Call.Args[0], ctxParam) {
+		ctxArg, repoArg := ssa.Value(nil), ssa.Value(nil)
+		if an.StaticCallee(c) == hasAccess && len(c.Call.Args) == 2 {
+			ctxArg, repoArg = c.Call.Args[0], c.Call.Args[1]
+		} else if w := c.Call.StaticCallee(); w != nil {
+			// a thin wrapper: every return of w is HasAccess(<ctx parameter>, <repository parameter>.TenantID)
+			ci, ri, isW := hasAccessWrapper(w, hasAccess)
+			if !isW {
+				return nil, false
+			}
+			args := c.Call.Args
+			if ci >= len(args) || ri >= len(args) {
+				return nil, false
+			}
+			ctxArg, repoArg = args[ci], args[ri]
+		} else {
+			return nil, false
+		}
+		if ctxParam != nil && !derivesFromRequestCtx(ctxArg, ctxParam) {
 			return nil, false // a context that is not the request's proves nothing
 		}
-		return g.repoIndexes(c.Call.Args[1]), true
+		return g.repoIndexes(repoArg), true
 	}}
 }
 
@@ -424,4 +441,60 @@ func derivesFromRequestCtx(v ssa.Value, ctxParam ssa.Value) bool {
 	}
 	walk(v, 0)
 	return fromParam && !unsafe
+}
+
+// hasAccessWrapper: w's every return is tenant.HasAccess(p_i, p_j.TenantID)
+// for parameters p_i (a context) and p_j (a repository record). It returns
+// the argument positions (receiver included, as in ssa call arguments).
+func hasAccessWrapper(w *ssa.Function, hasAccess *types.Func) (ctxIdx, repoIdx int, ok bool) {
+	if w == nil || len(w.Blocks) == 0 {
+		return 0, 0, false
+	}
+	paramIdx := func(v ssa.Value) int {
+		for i, p := range w.Params {
+			if ssa.Value(p) == v {
+				return i
+			}
+		}
+		return -1
+	}
+	ctxIdx, repoIdx = -1, -1
+	rets := 0
+	good := true
+	an.Instrs(w, func(b *ssa.BasicBlock, in ssa.Instruction) {
+		rt, isR := in.(*ssa.Return)
+		if !isR {
+			return
+		}
+		rets++
+		if len(rt.Results) != 1 {
+			good = false
+			return
+		}
+		c, isC := rt.Results[0].(*ssa.Call)
+		if !isC || an.StaticCallee(c) != hasAccess || len(c.Call.Args) != 2 {
+			good = false
+			return
+		}
+		ci := paramIdx(c.Call.Args[0])
+		ri := -1
+		switch x := c.Call.Args[1].(type) {
+		case *ssa.UnOp:
+			if fa, isFA := x.X.(*ssa.FieldAddr); isFA && x.Op == token.MUL {
+				if st, isS := an.Deref(fa.X.Type()).Underlying().(*types.Struct); isS && st.Field(fa.Field).Name() == "TenantID" {
+					ri = paramIdx(fa.X)
+				}
+			}
+		case *ssa.Field:
+			if st, isS := x.X.Type().Underlying().(*types.Struct); isS && st.Field(x.Field).Name() == "TenantID" {
+				ri = paramIdx(x.X)
+			}
+		}
+		if ci < 0 || ri < 0 || (ctxIdx >= 0 && (ci != ctxIdx || ri != repoIdx)) {
+			good = false
+			return
+		}
+		ctxIdx, repoIdx = ci, ri
+	})
+	return ctxIdx, repoIdx, good && rets > 0 && ctxIdx >= 0
 }
